@@ -72,7 +72,7 @@ pub trait Check: Sync {
 #[derive(Debug)]
 pub enum ChildOutcome {
     Done(ChildResult),
-    Fatal(String, Option<crate::sim::Recorded>),
+    Fatal(String, Option<crate::sim::Recorded>, String),
     Signal(i32),
     Timeout,
     Garbage(String),
@@ -172,17 +172,21 @@ pub fn run_child(timeout: Duration, f: impl FnOnce(i32) -> ChildResult) -> Child
     if code == 3 {
         let mut rec = None;
         let mut what = String::from("unknown fatal");
+        let mut diag = String::new();
         for line in text.lines() {
             if let Ok(v) = serde_json::from_str::<Value>(line) {
                 if let Some(f) = v.get("fatal").and_then(|x| x.as_str()) {
                     what = f.to_string();
+                    if let Some(d) = v.get("diag").and_then(|x| x.as_str()) {
+                        diag = format!(" [steps={} {}]", v.get("steps").and_then(|x| x.as_u64()).unwrap_or(0), d);
+                    }
                 }
                 if let Some(r) = v.get("recorded") {
                     rec = serde_json::from_value(r.clone()).ok();
                 }
             }
         }
-        return ChildOutcome::Fatal(what, rec);
+        return ChildOutcome::Fatal(what, rec, diag);
     }
     match text.lines().last().map(serde_json::from_str::<ChildResult>) {
         Some(Ok(r)) => ChildOutcome::Done(r),
@@ -213,11 +217,14 @@ pub fn eval_case(check: &dyn Check, case: &Case, timeout: Duration) -> ChildResu
     });
     match out {
         ChildOutcome::Done(r) => r,
-        ChildOutcome::Fatal(what, rec) => {
+        ChildOutcome::Fatal(what, rec, diag) => {
             let mut r = ChildResult::default();
             r.recorded = rec;
             match check.judge_abnormal(case, &what) {
-                Some(v) => r.violations.push(v),
+                Some(mut v) => {
+                    v.detail.push_str(&diag);
+                    r.violations.push(v)
+                }
                 None => r.harness_error = Some(format!("simulator stopped: {}", what)),
             }
             r
@@ -284,7 +291,7 @@ impl Summary {
         self.preemptions += o.preemptions;
         self.threads_max = self.threads_max.max(o.threads_max);
         for (c, v) in o.violations {
-            if !self.violations.iter().any(|(_, x)| x.class == v.class) {
+            if self.violations.iter().filter(|(_, x)| x.class == v.class).count() < 3 {
                 self.violations.push((c, v));
             }
         }
@@ -357,7 +364,9 @@ fn worker(check: &dyn Check, tier: Tier, base_seed: u64, k: usize, budget: &Budg
             let e = sum.classes.entry(v.class.clone()).or_insert((0, seed));
             e.0 += 1;
             // keep one case per class (bounded), the first one seen
-            if sum.violations.len() < 12 && !sum.violations.iter().any(|(_, x)| x.class == v.class) {
+            // keep a few cases per class (bounded), the first ones seen: a case that does not reproduce from its
+            // seed or its recorded decisions is never reported, and must not hide the ones that do
+            if sum.violations.len() < 36 && sum.violations.iter().filter(|(_, x)| x.class == v.class).count() < 3 {
                 let mut c = case.clone();
                 c.recorded = r.recorded.clone();
                 sum.violations.push((c, v.clone()));
@@ -408,7 +417,7 @@ pub fn explore(check: &dyn Check, tier: Tier, base_seed: u64, budget: &Budget) -
 // minimisation
 // ---------------------------------------------------------------------------
 
-fn still_fails(check: &dyn Check, case: &Case, class: &str, timeout: Duration) -> Option<ChildResult> {
+pub fn still_fails(check: &dyn Check, case: &Case, class: &str, timeout: Duration) -> Option<ChildResult> {
     let r = eval_case(check, case, timeout);
     if r.violations.iter().any(|v| v.class == class) {
         Some(r)
